@@ -81,6 +81,10 @@ SCENARIOS = [
     [("reach", "Established"), ("ev", "peer_reset"), ("wait", 2), ("conn_refuse",), ("wait", 2), ("conn_refuse",), ("wait", 4)],
     [("reach", "Established"), ("ev", "notif_other"), ("cdone",), ("wait", 2), ("conn_refuse",), ("wait", 4)],
     [("reach", "OpenConfirm"), ("ev", "peer_close"), ("wait", 2), ("wait", 3), ("conn_ok",), ("reach", "Established"), ("fire", 3)],
+    # the operator starts the peer during the boot delay; the attempt is still pending when the delayed
+    # automatic start comes due
+    [("ev", "start"), ("wait", 3)],
+    [("ev", "start"), ("wait", 1), ("conn_ok",), ("reach", "Established"), ("fire", 2)],
 ]
 
 
@@ -147,6 +151,9 @@ class FsmCtx(BaseCtx):
                 if op is not None:
                     return op
                 self.target = None
+        # --- application-handler fault (profiles that set p_hfail): the n-th callback from now raises ENOSPC
+        if cfg.get("p_hfail") and w.handler_fail_in is None and rng.chance(cfg["p_hfail"]):
+            return ["hfail", rng.randrange(1, 4)]
         # --- prompt environment: pending connects answered, closes completed
         for k, c in enumerate(live):
             if c.state == "connecting" and rng.chance(cfg["p_prompt"]):
@@ -471,6 +478,9 @@ class FsmCtx(BaseCtx):
         if not ran:
             return
         now = w.now()
+        for e in w.log[pos:]:
+            if e[2] == "handler_fault":
+                self.stats["handler_fault_fired:" + e[3]] += 1
         evs, labels = self.derive_events(op, pos)
         label = "+".join(labels) if labels else op[0]
         cell = "%s/%s" % (phase_before, label)
@@ -593,7 +603,13 @@ class FsmProfile(BaseProfile):
     ctx_class = FsmCtx
 
     def gen_config(self, rng, idx, tier):
-        return swarm_config(rng, idx)
+        cfg = swarm_config(rng, idx)
+        if self.id == "C01" and rng.chance(0.12):
+            # the application handler raises (storage full) when it is handed the peer's OPEN: the session
+            # layer has acted on the OPEN by then and must go on as if nothing had happened
+            cfg["p_hfail"] = rng.pick([0.05, 0.15])
+            cfg["hfail_only"] = ["open_received"]
+        return cfg
 
     def new_ctx(self, cfg, tier):
         return self.ctx_class(cfg, tier)
